@@ -810,6 +810,16 @@ func (c *SpecCtx) call(x *ECall) Val {
 			}
 		}
 		return Val{T: "false", Ty: tBool}
+	case "owned":
+		// owned(x): the object x points to (or the backing array of slice x) is exclusively owned by this thread
+		v := arg(0)
+		f := env.fieldFnNamed("gfld_any_owned")
+		return Val{T: fmt.Sprintf("(select %s (%s %s))", c.p.heapIn(c.st, env.memHeap(tBool)), f, refOf(c, v)), Ty: tBool}
+	case "pooled":
+		// pooled(x): x (or the backing array of slice x) belongs to a sync.Pool's population
+		v := arg(0)
+		f := env.fieldFnNamed("gfld_any_pooled")
+		return Val{T: fmt.Sprintf("(select %s (%s %s))", c.p.heapIn(c.st, env.memHeap(tBool)), f, refOf(c, v)), Ty: tBool}
 	case "isGlobal":
 		v := arg(0)
 		return Val{T: fmt.Sprintf("(= (ftag %s) (- 2))", refOf(c, v)), Ty: tBool}
@@ -875,6 +885,17 @@ func (c *SpecCtx) call(x *ECall) Val {
 			r.Ty = c.resolveType(pd.Ret)
 		}
 		return r
+	}
+	for fi := range env.specs.Folds {
+		f := &env.specs.Folds[fi]
+		if x.Fun == f.Name+"K" || x.Fun == f.Name+"D" {
+			fk, fd := c.p.foldFns(f)
+			v := arg(0)
+			if x.Fun == f.Name+"K" {
+				return Val{T: foldApp(fk, v.T), Ty: tInt}
+			}
+			return Val{T: foldApp(fd, v.T), Ty: tInt}
+		}
 	}
 	if uf, ok := env.specs.UFs[x.Fun]; ok {
 		var ss, ts []string
